@@ -3,7 +3,9 @@ package c03world
 import (
 	"context"
 	"encoding/binary"
+	"errors"
 	"sort"
+	"sync"
 
 	apiv1 "github.com/attestantio/go-eth2-client/api/v1"
 	"github.com/attestantio/go-eth2-client/spec/altair"
@@ -55,6 +57,29 @@ type Accounts struct {
 	Active func(index uint64, epoch uint64) bool
 	// SyncEligible likewise for SyncCommitteeAccountsForEpoch (default: Active).
 	SyncEligible func(index uint64, epoch uint64) bool
+
+	faultMu   sync.Mutex
+	faultN    int
+	faultMode string
+}
+
+// FailNext scripts the next n calls of ValidatingAccountsForEpoch (what the
+// controller asks before it obtains duties): mode "error" makes them fail, mode
+// "empty" makes them return no accounts.  n = 0 ends the fault.
+func (a *Accounts) FailNext(n int, mode string) {
+	a.faultMu.Lock()
+	a.faultN, a.faultMode = n, mode
+	a.faultMu.Unlock()
+}
+
+func (a *Accounts) takeFault() string {
+	a.faultMu.Lock()
+	defer a.faultMu.Unlock()
+	if a.faultN > 0 {
+		a.faultN--
+		return a.faultMode
+	}
+	return ""
 }
 
 func (a *Accounts) build(epoch phase0.Epoch, filter func(uint64, uint64) bool, only []phase0.ValidatorIndex) map[phase0.ValidatorIndex]e2wtypes.Account {
@@ -87,12 +112,27 @@ func (a *Accounts) syncFilter() func(uint64, uint64) bool {
 }
 
 // ValidatingAccountsForEpoch implements accountmanager.ValidatingAccountsProvider.
-func (a *Accounts) ValidatingAccountsForEpoch(_ context.Context, epoch phase0.Epoch) (map[phase0.ValidatorIndex]e2wtypes.Account, error) {
+func (a *Accounts) ValidatingAccountsForEpoch(ctx context.Context, epoch phase0.Epoch) (map[phase0.ValidatorIndex]e2wtypes.Account, error) {
+	if err := ctx.Err(); err != nil {
+		a.w.logCall(Call{Kind: "accounts-context-done", Slot: uint64(epoch)})
+		return nil, err
+	}
+	switch a.takeFault() {
+	case "error":
+		a.w.logCall(Call{Kind: "accounts-fault", Slot: uint64(epoch)})
+		return nil, errors.New("scripted accounts provider failure")
+	case "empty":
+		a.w.logCall(Call{Kind: "accounts-fault", Slot: uint64(epoch)})
+		return map[phase0.ValidatorIndex]e2wtypes.Account{}, nil
+	}
 	return a.build(epoch, a.Active, nil), nil
 }
 
 // ValidatingAccountsForEpochByIndex implements accountmanager.ValidatingAccountsProvider.
-func (a *Accounts) ValidatingAccountsForEpochByIndex(_ context.Context, epoch phase0.Epoch, indices []phase0.ValidatorIndex) (map[phase0.ValidatorIndex]e2wtypes.Account, error) {
+func (a *Accounts) ValidatingAccountsForEpochByIndex(ctx context.Context, epoch phase0.Epoch, indices []phase0.ValidatorIndex) (map[phase0.ValidatorIndex]e2wtypes.Account, error) {
+	if err := ctx.Err(); err != nil {
+		return nil, err
+	}
 	if indices == nil {
 		indices = []phase0.ValidatorIndex{}
 	}
@@ -100,12 +140,18 @@ func (a *Accounts) ValidatingAccountsForEpochByIndex(_ context.Context, epoch ph
 }
 
 // SyncCommitteeAccountsForEpoch implements accountmanager.ValidatingAccountsProvider.
-func (a *Accounts) SyncCommitteeAccountsForEpoch(_ context.Context, epoch phase0.Epoch) (map[phase0.ValidatorIndex]e2wtypes.Account, error) {
+func (a *Accounts) SyncCommitteeAccountsForEpoch(ctx context.Context, epoch phase0.Epoch) (map[phase0.ValidatorIndex]e2wtypes.Account, error) {
+	if err := ctx.Err(); err != nil {
+		return nil, err
+	}
 	return a.build(epoch, a.syncFilter(), nil), nil
 }
 
 // SyncCommitteeAccountsForEpochByIndex implements accountmanager.ValidatingAccountsProvider.
-func (a *Accounts) SyncCommitteeAccountsForEpochByIndex(_ context.Context, epoch phase0.Epoch, indices []phase0.ValidatorIndex) (map[phase0.ValidatorIndex]e2wtypes.Account, error) {
+func (a *Accounts) SyncCommitteeAccountsForEpochByIndex(ctx context.Context, epoch phase0.Epoch, indices []phase0.ValidatorIndex) (map[phase0.ValidatorIndex]e2wtypes.Account, error) {
+	if err := ctx.Err(); err != nil {
+		return nil, err
+	}
 	if indices == nil {
 		indices = []phase0.ValidatorIndex{}
 	}
@@ -159,7 +205,10 @@ func (a *RecAttester) Attest(_ context.Context, duty *attester.Duty) ([]*phase0.
 type RecProposer struct{ w *World }
 
 // Prepare implements beaconblockproposer.Service.
-func (p *RecProposer) Prepare(_ context.Context, duty *beaconblockproposer.Duty) error {
+func (p *RecProposer) Prepare(ctx context.Context, duty *beaconblockproposer.Duty) error {
+	if err := ctx.Err(); err != nil {
+		return err
+	}
 	p.w.logCall(Call{Kind: "propose-prepare", Slot: uint64(duty.Slot()), Validator: uint64(duty.ValidatorIndex())})
 	return nil
 }
@@ -247,7 +296,10 @@ func (a *RecSyncAggregator) Aggregate(_ context.Context, duty *synccommitteeaggr
 type RecSyncSubscriber struct{ w *World }
 
 // Subscribe implements synccommitteesubscriber.Service.
-func (s *RecSyncSubscriber) Subscribe(_ context.Context, endEpoch phase0.Epoch, duties []*apiv1.SyncCommitteeDuty) error {
+func (s *RecSyncSubscriber) Subscribe(ctx context.Context, endEpoch phase0.Epoch, duties []*apiv1.SyncCommitteeDuty) error {
+	if err := ctx.Err(); err != nil {
+		return err
+	}
 	c := Call{Kind: "sync-subscribe", Slot: uint64(endEpoch)}
 	for _, d := range duties {
 		c.Validators = append(c.Validators, uint64(d.ValidatorIndex))
@@ -276,7 +328,10 @@ func (a *RecAttAggregator) AggregatorsAndSignatures(_ context.Context, accounts 
 type RecBeaconCommitteeSubscriber struct{ w *World }
 
 // Subscribe implements beaconcommitteesubscriber.Service.
-func (s *RecBeaconCommitteeSubscriber) Subscribe(_ context.Context, epoch phase0.Epoch, accounts map[phase0.ValidatorIndex]e2wtypes.Account) (map[phase0.Slot]map[phase0.CommitteeIndex]*beaconcommitteesubscriber.Subscription, error) {
+func (s *RecBeaconCommitteeSubscriber) Subscribe(ctx context.Context, epoch phase0.Epoch, accounts map[phase0.ValidatorIndex]e2wtypes.Account) (map[phase0.Slot]map[phase0.CommitteeIndex]*beaconcommitteesubscriber.Subscription, error) {
+	if err := ctx.Err(); err != nil {
+		return nil, err
+	}
 	c := Call{Kind: "subscribe", Slot: uint64(epoch)}
 	for v := range accounts {
 		c.Validators = append(c.Validators, uint64(v))
@@ -315,7 +370,10 @@ func (s *RecBeaconCommitteeSubscriber) Subscribe(_ context.Context, epoch phase0
 type RecProposalsPreparer struct{ w *World }
 
 // UpdatePreparations implements proposalpreparer.Service.
-func (p *RecProposalsPreparer) UpdatePreparations(context.Context) error {
+func (p *RecProposalsPreparer) UpdatePreparations(ctx context.Context) error {
+	if err := ctx.Err(); err != nil {
+		return err
+	}
 	p.w.logCall(Call{Kind: "prepare-proposals"})
 	return nil
 }
